@@ -194,18 +194,15 @@ def unbound_names(msg):
 
 
 # known root causes (features computed by vlib/c08_sugar.features) and the parser failures each of them explains
-PARSE_CAUSES = (("multi_segment", ("else_branch",)),
-                ("dd_below_exists", ("unbound",)),
+PARSE_CAUSES = (("dd_below_exists", ("unbound",)),
+                ("free_head_before_omitted", ("unbound", "unknown_variable", "stop_iteration")),
+                ("merge_alternatives_differ", ("unbound", "unknown_variable", "stop_iteration", "no_conversion")),
                 ("xp_binder_under_iff_xor", ("unbound", "unknown_variable", "stop_iteration")),
                 ("xp_head_name_reused", ("unbound", "unknown_variable", "stop_iteration", "no_conversion")),
-                ("dup_binder_captures_xpath_var", ("unbound", "unknown_variable", "stop_iteration")),
-                ("free_plain_and_head", ("unbound", "stop_iteration")),
-                ("free_before_omitted", ("unbound",)),
-                ("free_after_xpath_same_type", ("unbound", "unknown_variable", "stop_iteration")),
-                ("free_start_child", ("unbound",)),
-                ("start_omitted_name", ("bare_assertion",)),
-                ("dd_on_start", ("stop_iteration",)),
-                ("const_atom", ("unknown_variable",)))
+                ("dup_binder_captures_xpath_var", ("unbound", "unknown_variable", "stop_iteration")))
+# (the shapes of repaired findings -- multi_segment, free_plain_and_head, free_before_omitted, free_after_xpath_same_type,
+#  free_start_child, start_omitted_name, dd_on_start, const_atom, const_implicit_start -- are still computed as class labels,
+#  but no longer explain a failure: a failure on them is reported as parse:unexplained)
 
 
 def error_kind(exc_type, msg):
@@ -343,6 +340,9 @@ def judge(case):
     text = S.pr_sugar(F) if not cname else "const %s: <start>; %s" % (cname, S.pr_sugar(S.rename_const(F, cname)))
     fs, causes = S.features(F)
     labels = sorted(fs) + ["grammar:" + case.get("gname", "?")]
+    if S.merge_risk(cg, F):
+        causes["merge_alternatives_differ"] = set()
+        labels.append("xp_merge_alternatives_differ")
     if cname:
         labels.append("const_decl")
         uses_const = any(r == ["v", "start"] or (r[0] == "xp" and r[1] == ["v", "start"]) for r in S.all_refs(F))
@@ -440,9 +440,8 @@ def judge(case):
             seen.add(sig)
             viol.append(dict(sig=sig, sugar=text, core=core_text, **kw))
 
-    family = next((c for c in ("const_implicit_start", "dd_negated_binder", "xp_binder_under_iff_xor", "xp_head_name_reused",
-                               "dup_binder_captures_xpath_var",
-                               "free_after_xpath_same_type")
+    family = next((c for c in ("dd_negated_binder", "free_head_before_omitted", "merge_alternatives_differ",
+                               "xp_binder_under_iff_xor", "xp_head_name_reused", "dup_binder_captures_xpath_var")
                    if c in causes),
                   "xpath" if fs & {"xp_child", "xp_dd"} else "free" if "free_nt" in fs else "plain")
     for t in trees:
@@ -522,7 +521,8 @@ def health(stats, tier):
         return "%d of %d cases without a documented translation (generator should avoid them)" % (c.get("not_pinned", 0), n)
     for f, floor in (("free_nt", 0.1), ("xp_child", 0.1), ("xp_dd", 0.04), ("name_omitted", 0.08), ("in_start_omitted", 0.2),
                      ("infix", 0.2), ("prefix", 0.2), ("neg_literal", 0.04), ("conn:xor", 0.04), ("conn:iff", 0.04),
-                     ("conn:implies", 0.04), ("xp_two_on_var", 0.005), ("xp_index>1", 0.005)):
+                     ("conn:implies", 0.04), ("xp_two_on_var", 0.05), ("xp_index>1", 0.005),
+                     ("unnamed_binder_two_xpaths", 0.015), ("two_dd_child_same_type", 0.03), ("xp_child_after_dd", 0.04)):
         if n < 400 and floor < 0.05:
             continue    # rare features are only demanded of full-size runs
         if c.get(f, 0) < floor * n:
